@@ -19,8 +19,8 @@ ASSUMPTIONS = [
     "float masses compared at 1e-12 relative (accumulated rounding of the float sum)",
 ]
 REL = Fraction(1, 10 ** 12)
-QUICK = ["counts_q", "hyd_q", "decor_q", "symbols", "symsuf"]
-THOROUGH = ["nest_t", "counts_t", "hyd_t", "decor_t", "symbols", "symsuf"]
+QUICK = ["counts_q", "hyd_q", "decor_q", "prefix2_q", "symbols", "symsuf"]
+THOROUGH = ["nest_t", "counts_t", "hyd_t", "decor_t", "prefix2_t", "symbols", "symsuf"]
 
 
 def limbs_to_int(l):
@@ -113,6 +113,50 @@ def replay_formula(case):
             bad.append(("Substance.mass[second read]", s.mass, m))
     except Exception as ex:
         bad.append(("Substance.molar_mass", type(ex).__name__, exd))
+    return bad
+
+
+def replay_objects(case):
+    """SubstanceObjects.tla: a history of creations / charged creations / in-place edits; after every step every
+    object alive must show the composition, charge and mass the specification gives it."""
+    from chempy import Substance
+    objs, bad = [], []
+    for k, step in enumerate(case["in"]["hist"]):
+        op = step["op"]
+        refused = False
+        try:
+            if op == "create":
+                objs.append(Substance.from_formula(fc.code_text(step["txt"])))
+            elif op == "create-charged":
+                try:
+                    objs.append(Substance.from_formula(fc.code_text(step["txt"]), charge=step["q"]))
+                except Exception:
+                    refused = True
+            else:
+                o = objs[step["i"] - 1]
+                o.composition[step["z"]] = o.composition.get(step["z"], 0) + step["d"]
+        except Exception as ex:
+            return [("step %d %s" % (k + 1, op), type(ex).__name__, "no exception")]
+        if refused != step["refused"]:
+            return [("step %d %s: refused" % (k + 1, op), refused, step["refused"])]
+        snap = step["snap"]
+        if len(objs) != len(snap):
+            return [("step %d %s: objects alive" % (k + 1, op), len(objs), len(snap))]
+        for j, (o, e) in enumerate(zip(objs, snap)):
+            who = "step %d %s: object %d (%s)" % (k + 1, op, j + 1, e["txt"])
+            pr = fc.project_composition(o.composition)
+            if pr.get("comp") != e["comp"] or pr.get("q") != e["q"]:
+                bad.append((who + ".composition", pr, {"comp": e["comp"], "q": e["q"]}))
+            if o.charge != e["q"]:
+                bad.append((who + ".charge", o.charge, e["q"]))
+            try:
+                m = o.mass
+            except Exception as ex:
+                m = type(ex).__name__
+            if not _mass_ok(m, e["massnum"], e["massden"]):
+                bad.append((who + ".mass", m, {"massnum": e["massnum"], "massden": e["massden"]}))
+        if bad:
+            return bad
     return bad
 
 
@@ -228,6 +272,21 @@ def run(ctx):
             ctx.violation({"fn": what, "mix": case["in"]["entries"]},
                           {"direction": "spec->code", "kind": "mix", "case": case, "observed": obs, "expected": exp})
     ctx.sample({"mixture": res.cases[-1]}, cap=10)
+
+    # ---- object histories: creations, charged creations and in-place edits leave every other object alone
+    res = ctx.tlc("SubstanceObjects", "SubstanceObjects_%s.cfg" % ("q" if ctx.quick else "t"), require_cases=500,
+                  timeout=1500)
+    sel = ctx.pick(res.cases, 800 if ctx.quick else 30000)
+    outs = ctx.pmap(replay_objects, sel)
+    ctx.cases_replayed += len(sel)
+    for case, bad in zip(sel, outs):
+        ctx.ran({"objects": [h.get("txt", h.get("i")) for h in case["in"]["hist"]], "cls": case["cls"]})
+        for what, obs, exp in bad:
+            ctx.violation({"fn": "Substance objects", "what": what.split(":")[-1].strip() if ":" in what else what,
+                           "cls": case["cls"]},
+                          {"direction": "spec->code", "kind": "objects", "case": case, "step": what,
+                           "observed": obs, "expected": exp})
+    ctx.sample({"objects": sel[0]["in"]["hist"][0]}, cap=10)
     ctx.exhaustive = not ctx.quick
 
     # ---- code -> spec: seeded formulas, mass judged by TLC in exact limb arithmetic
@@ -278,7 +337,7 @@ def run(ctx):
 
 def replay(ctx, rec):
     kind = rec.get("kind")
-    fn = {"element": replay_element, "formula": replay_formula, "mix": replay_mix}.get(kind)
+    fn = {"element": replay_element, "formula": replay_formula, "mix": replay_mix, "objects": replay_objects}.get(kind)
     if fn:
         for what, obs, exp in fn(rec["case"]):
             ctx.violation({"fn": what}, {"observed": obs, "expected": exp})
